@@ -12,7 +12,8 @@ Imports nothing from pox.  It is a restatement of the property text, not of POX'
   be delivered or dropped (the later features reply describes the ports anyway) but never twice,
   never out of order and never before the announcement;
 * connection-down is due exactly once for an announced connection that is lost;
-* the registry holds, per datapath id, the most recent live announced connection.
+* the registry holds, per datapath id, the most recent live announced connection (see `registry`
+  for the one situation in which the statement can be read two ways).
 
 Where the statement is silent (what the controller does with a barrier reply carrying a foreign xid)
 the model is told what happened (`dropped_by_controller`) and follows.
@@ -41,6 +42,7 @@ class Conn(object):
     self.async_before_up = 0
     self.wrong_barrier = False
     self.unjudged = False
+    self.superseded = False
 
 
 class Lifecycle(object):
@@ -71,6 +73,11 @@ class Lifecycle(object):
   def _announce(self, c):
     c.up = True
     c.up_seq = self._tick()
+    for o in self.conns:
+      if o is not c and o.up and not o.lost and o.dpid == c.dpid:
+        o.superseded = True
+        if o.created_seq > c.created_seq:
+          c.superseded = True       # opened earlier, announced later: either may count as the newer one
 
   def barrier_reply(self, c, xid):
     """returns 'up', 'foreign' (reply to something that is not the outstanding barrier) or None"""
@@ -121,11 +128,19 @@ class Lifecycle(object):
   def live_announced(self, dpid):
     return [c for c in self.conns if c.up and not c.lost and c.dpid == dpid]
 
+  def superseded(self, c):
+    """another connection of the same datapath was announced (or opened and announced) after c while
+    c was live: the statement calls c the datapath's *stale* connection from then on"""
+    return c.superseded
+
   def registry(self):
-    """dpid -> (preferred connection, set of acceptable connections).
+    """dpid -> (preferred connection, set of acceptable connections, absent_ok).
 
     'Most recent' is read as most recently announced; when the most recently opened live
-    connection is a different one, either is accepted."""
+    connection is a different one, either is accepted.  When every live announced connection of a
+    datapath has been superseded by a newer one that is gone by now, the statement can be read
+    both ways (the survivor is 'live', or it is the 'stale connection' of a datapath that has
+    reconnected): the registry may then hold the survivor or nothing."""
     out = {}
     for c in self.conns:
       if c.up and not c.lost:
@@ -134,7 +149,7 @@ class Lifecycle(object):
     for d, cs in out.items():
       by_up = max(cs, key=lambda c: c.up_seq)
       by_open = max(cs, key=lambda c: c.created_seq)
-      res[d] = (by_up, {by_up.idx, by_open.idx})
+      res[d] = (by_up, {by_up.idx, by_open.idx}, by_up.superseded and by_open.superseded)
     return res
 
 
